@@ -6,13 +6,13 @@ META = {
     'technique': 'Lean 4 refinement proof of a hand model of fibre.c (time comparison = the cyclecmp32 generated from util.c; the timer-queue comparator duetime_cmp regenerated from fibre.c and proved to be the dueGe of the model, Props/C02Tie.lean) against an abstract specification with true unbounded due times; '
                  'time-shift invariance proved for every offset of the 32-bit ring; model and specification tied to the real code by differential runs',
     'level_text': "Proved for the model with the cyclecmp32 generated from util.c: fibre_timeout returns true iff D <= T (half-window lemma); a sleeper is not dispatched by any in-scope pass with T < D and is in the run queue after the first pass with T >= D; handle_timerq moves exactly the sleepers with D <= T in (due time, registration) order (stable sort proved sorted/permutation/stable); running, killing or re-queueing a yielding sleeper removes it from the timer queue and from the specification's sleepers; and time_shift_invariance: for EVERY history and every offset c : BitVec 32 the shifted history behaves identically (wake-up times shifted by c) - every placement of the time base in the ring, incl. both wrap seams, is covered by proof.",
-    'level_note': "Trusted: Lean kernel (standard axioms only in the C02 theorems; bv_decide certificates in duetime_cmp_generated of Props/C02Tie.lean and, for duetime_cmp_agrees which is stated over the C09 layout, those of Props/C09Tie.lean); tools/c2lean2.py for duetime_cmp (fibre_t in memory, x86-64 layout); the hand model lean/Librfn/Model/Fibre.lean of fibre.c and the abstract specification are BOTH run against the real fibre.c+list.c+messageq.c+util.c on every check (sampled histories, exhaustive small scope in the thorough tier) - that correspondence is testing, not proof; cyclecmp32 is regenerated from util.c (tie T); list.c is replaced by sequences (its refinement is C09; every insertion is proved to be of a node in no list); the atomic run queue is its list of committed entries, fibre_run_atomic runs to completion (the lock-free protocol is C04/C06); scope = the property's quantifier: <= 1 unsatisfied fibre_timeout per dispatch, non-decreasing true times, every pending due time within 2^31 ticks of the pass time (the 9th outstanding atomic request is refused by model and specification alike, so no clause is needed).",
+    'level_note': "Trusted: Lean kernel (standard axioms only in the C02 theorems; bv_decide certificates in duetime_cmp_generated of Props/C02Tie.lean); tools/c2lean2.py for duetime_cmp (fibre_t in memory, x86-64 layout); the hand model lean/Librfn/Model/Fibre.lean of fibre.c and the abstract specification are BOTH run against the real fibre.c+list.c+messageq.c+util.c on every check (sampled histories, exhaustive small scope in the thorough tier) - that correspondence is testing, not proof; cyclecmp32 is regenerated from util.c (tie T); list.c is replaced by sequences (its refinement is C09; every insertion is proved to be of a node in no list); the atomic run queue is its list of committed entries, fibre_run_atomic runs to completion (the lock-free protocol is C04/C06); scope = the property's quantifier: <= 1 unsatisfied fibre_timeout per dispatch, non-decreasing true times, every pending due time within 2^31 ticks of the pass time (the 9th outstanding atomic request is refused by model and specification alike, so no clause is needed).",
     'design_ref': '§6 C02',
 }
 REQUIRED = ['Librfn.C02.cyclecmp_window', 'Librfn.C02.timeout_ret', 'Librfn.C02.no_early_fire', 'Librfn.C02.fires_first_pass', 'Librfn.C02.expiry_order', 'Librfn.C02.expiry_order_is_due_then_registration', 'Librfn.C02.time_shift_invariance', 'Librfn.C02.time_base_irrelevant', 'Librfn.C02.cancel_on_run_kill_yield', 'Librfn.C02.cancelled_sleep_is_gone']
 
 
-TIE = ['Librfn.C02.Tie.duetime_cmp_generated', 'Librfn.C02.Tie.duetime_cmp_tie', 'Librfn.C02.Tie.duetime_cmp_agrees']
+TIE = ['Librfn.C02.Tie.duetime_cmp_generated', 'Librfn.C02.Tie.duetime_cmp_tie']
 
 
 def run(ctx):
@@ -21,7 +21,7 @@ def run(ctx):
     import os, sys
     sys.path.insert(0, os.path.join(os.path.dirname(os.path.abspath(__file__)), '..', 'tools'))
     import regen
-    for u, e in regen.regen(['FibreSeq', 'ListSeq']):
+    for u, e in regen.regen(['FibreSeq']):
         ctx.broken.append(f'tie T: tools/c2lean2.py cannot translate unit {u}: {e}')
     changed = [f'{u}: {c}' for u in ('FibreSeq',) for c in regen.signature_changes(u)]
     mods, req = ['Librfn.Props.C02'], list(REQUIRED)
@@ -32,7 +32,7 @@ def run(ctx):
 
     def allow(t, a):
         return t.startswith('Librfn.C02.Tie.') and '._native.bv_decide.ax_' in a and (
-            a.startswith('Librfn.C02.Tie.duetime_cmp_generated.') or a.startswith('Librfn.C09.Tie.') or a.startswith('Librfn.Gen.Mem.'))
+            a.startswith('Librfn.C02.Tie.duetime_cmp_generated.'))
     sc.run_sched(ctx, META, mods, req, 'C02', allow_extra_axioms=allow)
     ctx.cov['tie_T_generated_units'] = {'FibreSeq': ['duetime_cmp']}
 
